@@ -17,6 +17,82 @@ def _num(x):
     return isinstance(x, (int, SymInt)) and not isinstance(x, bool)
 
 
+class SecFloat(core.SymFloat):
+    """timedelta.total_seconds(): CPython divides the integer microsecond
+    count by 10**6 with int/int true division, which is correctly rounded,
+    so the value is RNE(us / 10**6).  int() and comparisons with integers are
+    encoded exactly in linear integer arithmetic (z3 does not decide the
+    int -> binary64 conversion of values around 2**58):
+
+    * |q| < 2**34: half an ulp is < 10**-6, the spacing of q = us / 10**6,
+      and integers are representable, so trunc(RNE(q)) = trunc(q) and
+      RNE(q) <op> w  <=>  q <op> w for every integer w;
+    * 2**e <= |q| < 2**(e+1), e = 34..38: RNE(q) = m / 2**(52-e) with
+      m = round-half-even(|us| * 2**(52-e) / 10**6).
+
+    Other operations fall back to the floating-point term."""
+    __slots__ = ('us',)
+
+    def __init__(self, us):
+        base = core.tofloat_obj(us) / 1000000.0
+        core.SymFloat.__init__(self, base.t, base.iv)
+        self.us = us
+
+    def _parts(self):
+        import z3
+        E = core.eng()
+        U = toint(self.us)
+        a = z3.If(U >= 0, U, -U)
+        if not E.valid(a < (1 << 39) * US):
+            raise Unsupported('total_seconds beyond 2**39 s')
+        sg = z3.If(U >= 0, 1, -1)
+        big = []
+        for e in range(34, 39):
+            k = 52 - e
+            n = a * (1 << k)
+            fl, rem = n / US, n % US
+            m = z3.If(2 * rem < US, fl, z3.If(
+                2 * rem > US, fl + 1, z3.If(fl % 2 == 0, fl, fl + 1)))
+            big.append((a < (1 << (e + 1)) * US, m, k))
+        return U, a, sg, big
+
+    def exact_trunc(self):
+        import z3
+        U, a, sg, big = self._parts()
+        t = big[-1][1] / (1 << big[-1][2])
+        for c, m, k in reversed(big[:-1]):
+            t = z3.If(c, m / (1 << k), t)
+        t = z3.If(a < (1 << 34) * US, a / US, t)
+        return wrapint(sg * t)
+
+    def exact_cmp(self, o, op):
+        import z3
+        if isinstance(o, bool) or isinstance(o, SymBool):
+            o = toint(o)
+        if isinstance(o, float) and o == o and abs(o) != float('inf') \
+                and o == int(o):
+            o = int(o)
+        if not isinstance(o, (int, SymInt, z3.ArithRef)):
+            return NotImplemented
+        W = toint(o)
+        U, a, sg, big = self._parts()
+        t = op(sg * big[-1][1], W * (1 << big[-1][2]))
+        for c, m, k in reversed(big[:-1]):
+            t = z3.If(c, op(sg * m, W * (1 << k)), t)
+        t = z3.If(a < (1 << 34) * US, op(U, W * US), t)
+        return wrapbool(t)
+
+    def __eq__(s, o):
+        r = s.exact_cmp(o, lambda a, b: a == b)
+        return core.SymFloat.__eq__(s, o) if r is NotImplemented else r
+
+    def __ne__(s, o):
+        r = s.exact_cmp(o, lambda a, b: a != b)
+        return core.SymFloat.__ne__(s, o) if r is NotImplemented else r
+
+    __hash__ = core.SymFloat.__hash__
+
+
 class timedelta:
     def __init__(self, days=0, seconds=0, microseconds=0, milliseconds=0,
                  minutes=0, hours=0, weeks=0, _us=None):
@@ -35,8 +111,8 @@ class timedelta:
     microseconds = property(lambda s: s.us % US)
 
     def total_seconds(self):
-        return core.tofloat_obj(self.us) / 1000000.0 \
-            if isinstance(self.us, SymInt) else self.us / 1e6
+        return SecFloat(self.us) if isinstance(self.us, SymInt) \
+            else self.us / 1e6
 
     def _c(self, o, f):
         if not isinstance(o, timedelta):
